@@ -549,6 +549,43 @@ def gen_ctx(rng):
     return ctx
 
 
+def recipe_ops(r, acc=None):
+    """(set of op names, number of reduce nodes) occurring in a recipe."""
+    acc = acc if acc is not None else [set(), 0]
+    if isinstance(r, tuple) and r and isinstance(r[0], str) and r[0] != "tensor":
+        if r[0] in ("binary", "bin2", "unary", "reduce"):
+            acc[0].add(r[1])
+        if r[0] == "contr2":
+            acc[0].update((r[1], r[2]))
+        if r[0] == "reduce":
+            acc[1] += 1
+        for x in r:
+            if isinstance(x, tuple):
+                recipe_ops(x, acc)
+    elif isinstance(r, tuple):
+        for x in r:
+            if isinstance(x, tuple):
+                recipe_ops(x, acc)
+    return acc
+
+
+def normalize_route_clean(recipes):
+    """Regions of two OPEN findings about the normalize / optimizer interpretations themselves (not about substitution):
+    KF-minmax-mul-negative ((max,mul)/(min,mul) distribute only on non-negative values; `sub`/`neg` are rewritten to
+    a multiplication by -1) and KF-shared-binder-unfold (optimizer on products of reductions).  The normalize /
+    apply_optimizer routes of the clean stream stay out of them; the other routes still run those cases."""
+    opsset, nred = set(), 0
+    for r in recipes:
+        o, n = recipe_ops(r)
+        opsset |= o
+        nred += n
+    if opsset & {"min", "max"} and opsset & {"mul", "sub", "neg"}:
+        return False, "minmax-with-mul"
+    if nred >= 2:
+        return False, "several-reductions"
+    return True, ""
+
+
 def has_absent_reduce(r):
     if not isinstance(r, tuple) or not r or not isinstance(r[0], str) or r[0] == "tensor":
         return False
@@ -847,6 +884,12 @@ def run_s2(ctx, n, use_lean=True, cases=None):
                 "reflect": rng.choice(["Subs+stack_reinterpret", "Subs+recursion_reinterpret", "Subs-reflect+apply_optimizer",
                                        "call-under-normalize"]),
                 "normalize": rng.choice(["call-under-normalize", "call-under-normalize+reinterpret"])}[interp]
+        if interp == "normalize" or "normalize" in mode or "optimizer" in mode:
+            clean, why = normalize_route_clean([recipe] + [v for _, v in sigma])
+            if not clean:
+                ctx.count(f"S2:normalize-route-avoided:{why}")
+                interp = "lazy" if interp == "normalize" else interp
+                mode = "call" if interp == "lazy" else "Subs+stack_reinterpret"
         if cat_capture_region(f_syn, sig_syn):
             # a value substituted below a lazily built Cat mentions the Cat's own name: funsor must decline
             # (Cat.__init__'s name-clash assertion, also made by the eager Cat rules since e7d35f5) or be right;
@@ -2068,13 +2111,17 @@ def run_s6(ctx):
                              ({"a": "b"}, lambda e: M[e["b"], e["b"]], False), ({"a": 1}, lambda e: M[1, e["b"]], False),
                              ({"a": "c", "b": 1}, lambda e: M[e["c"], 1], False), ({"a": "b", "b": 0}, lambda e: M[e["b"], 0], True),
                              ({"b": "a", "a": 1}, lambda e: M[1, e["a"]], True)):
+        route = rng.choice(["lazy", "normalize", "reflect+apply_optimizer"])
         try:
-            with lazy:
-                r = mp(**sig)
+            if route == "lazy":
+                with lazy:
+                    r = mp(**sig)
+            else:
+                r = s7_route(route, lambda: mp, sig)
             with eager:
                 r = reinterpret(r)
         except DECLINE as ex:
-            ctx.count(f"S6:markov:declined:{type(ex).__name__}")
+            ctx.count(f"S6:markov:{route}:declined:{type(ex).__name__}")
             continue
         expn = {v for v in sig.values() if isinstance(v, str)} | ({"a", "b"} - set(sig))
         py = mp_py + f"with lazy:\n    r = mp(**{sig!r})\nr = reinterpret(r)\nprint(r.inputs, r)\nFAILS = True\n"
@@ -2090,8 +2137,9 @@ def run_s6(ctx):
              f"Tensor({_arr_py(src_d)}, OrderedDict(j=Bint[3])) + Variable('x', Real), frozenset({{Variable('j', Bint[3])}}))\n")
     for sig, spec, region in (({"i": "k"}, lambda e: dense[e["k"]], False), ({"i": 2}, lambda e: dense[2], True), ({"i": 3}, lambda e: dense[3], True),
                               ({"i": Tensor(np.array([0, 3]), OrderedDict(m=Bint[2]), 4)}, lambda e: dense[[0, 3][e["m"]]], True)):
+        route = rng.choice(["call", "normalize", "reflect+apply_optimizer"])
         try:
-            r = sc(**sig)
+            r = s7_route(route, lambda: sc, sig)
             r0 = r(x=0.0) if "x" in r.inputs else r
             with eager:
                 r0 = reinterpret(r0)
@@ -2167,6 +2215,24 @@ def s7_value_py(v):
     return f"Tensor({_arr_py(np.asarray(v.data))}, OrderedDict([{ins}]), {v.dtype!r})"
 
 
+def s7_route(route, get_f, kw):
+    """The ways a substitution is performed: plain call (eager), under `normalize` (cnf.py's Subs rules: do_fresh_subs,
+    distribute_subs_contraction, normalize_fuse_subs), normalize then reinterpret, reflect-built Subs -> apply_optimizer."""
+    f = get_f()
+    if route == "call":
+        return f(**kw)
+    if route.startswith("normalize"):
+        with normalize:
+            r = f(**kw)
+        if route.endswith("+reinterpret"):
+            with eager:
+                r = reinterpret(r)
+        return r
+    with reflect:
+        s_ = f(**kw)
+    return apply_optimizer(s_)
+
+
 def run_s7(ctx):
     from funsor.terms import Independent, Scatter
     from funsor.sum_product import MarkovProduct
@@ -2215,12 +2281,18 @@ def run_s7(ctx):
                 break
         py = (S5_HEADER + "g = Delta((" + ", ".join(f"({nm!r}, ({s7_value_py(pt)}, {s7_value_py(ld)}))" for nm, (pt, ld) in d.terms) + ",))\n" +
               "r = g(**{" + ", ".join(f"{k!r}: {s7_value_py(v)}" for k, v, _ in sigma) + "})\nprint(r.inputs, r)\nFAILS = True\n")
+        route = rng.choice(["call", "call", "normalize", "normalize+reinterpret", "reflect+apply_optimizer"])
+        wit = dict(wit, route=route)
+        py = py.replace("r = g(**{", {"call": "r = g(**{", "normalize": "with normalize:\n    r = g(**{",
+                                      "normalize+reinterpret": "with normalize:\n    r = g(**{",
+                                      "reflect+apply_optimizer": "with reflect:\n    r = g(**{"}[route]) + f"# route: {route}\n"
         try:
-            r = d(**{k: v for k, v, _ in sigma})
+            r = s7_route(route, lambda: d, {k: v for k, v, _ in sigma})
             status = "value"
         except DECLINE as ex:
             r, status = None, "declined"
-            ctx.count(f"S7:delta:declined:{type(ex).__name__}")
+            ctx.count(f"S7:delta:{route}:declined:{type(ex).__name__}")
+        ctx.count(f"S7:delta:route:{route}")
         if r is not None:
             bad = [k for k, dom in r.inputs.items() if k not in exp or exp[k] != dom]
             if bad:
@@ -2272,11 +2344,13 @@ def run_s7(ctx):
             renv = {k_: _dyarr(rng, tuple(dom.shape), -4, 4) for k_, dom in exp.items() if dom.dtype == "real"}
             wit = {"stream": "S7.independent", "n": n, "built_under": how, "x": kind, "k": ksub}
             py = S5_HEADER + f"# Independent(T[i,k]*x_i + T[i], 'x','i','x_i') built under {how}; sigma x:={kind}, k:={ksub}\nFAILS = True\n"
+            route = rng.choice(["call", "normalize", "normalize+reinterpret", "reflect+apply_optimizer"])
+            wit["route"] = route
             try:
-                r = f(**dict(sig))
+                r = s7_route(route, lambda: f, dict(sig))
             except DECLINE as ex:
                 r = None
-                ctx.count(f"S7:independent:declined:{type(ex).__name__}")
+                ctx.count(f"S7:independent:{route}:declined:{type(ex).__name__}")
             envw = sx(ser.env_wire(renv))
             reqs.append(f"C04 denote {sx(['subs', f_wire, sig_wire])} {sx(ser.ins_wire(ins))} {envw}")
             meta.append(("indep-spec", wit, py, r, ins, renv))
@@ -2440,14 +2514,56 @@ RULE = ("S1: exhaustive sigma-shapes (18 descriptors per input: none, number, va
         "Scatter. S7 (Lean models): Deltas with 1-2 names (hit/miss/tensor values, renamings incl. swaps and collisions, batch "
         "index/rename, shuffled pairs) vs `deltasubs` and denote; Independent (7 value kinds x 3 batch substitutions) vs "
         "`indepsubs`; the eager_subs decision of MarkovProduct/Scatter exhaustively over 6x6 sigma-shapes x both pair orders "
-        "vs `mpdecide`. S8: Stack / Cat / n-ary Contraction with a repeated identical part (6 layouts) and a sibling 1-3 levels "
+        "vs `mpdecide`. ROUTES of a substitution (S2/S8, and S6/S7 for Delta/Independent/MarkovProduct/Scatter): plain call, call under "
+        "lazy, call under normalize (cnf.py Subs rules: do_fresh_subs, distribute_subs_contraction, normalize_fuse_subs), normalize then "
+        "reinterpret(eager), reflect-built Subs -> stack_reinterpret / recursion_reinterpret / apply_optimizer; the normalize and optimizer "
+        "routes avoid the regions of the open findings KF-minmax-mul-negative and KF-shared-binder-unfold (min/max with mul/sub/neg; several "
+        "reductions), where the other routes still run. S8: Stack / Cat / n-ary Contraction with a repeated identical part (6 layouts) and a sibling 1-3 levels "
         "deeper, at/below the root, x 8 sigma maps (numbers, swap, diagonal, expressions, partial, with int keys), built under "
         "lazy/reflect/eager, both reinterpreters, vs Lean denote. S3: exhaustive boxes for Slice-into-Slice, Cat/Stack "
         "with Slice/Number. Non-trivial = at least one non-number value; distinct by full content.")
 
 
+FRESH_COVERED = {"Variable": "S2 (substitute var case)", "Tensor": "S1/S2", "Slice": "S2/S3", "Stack": "S2/S3/S4/S8", "Cat": "S2/S3/S4/S8",
+                 "Delta": "S5/S7", "Independent": "S6/S7", "Scatter": "S6/S7", "MarkovProduct": "S6/S7", "Constant": "S6",
+                 "Gaussian": "S5", "Approximate": "not a substitution target of its own (fresh = approx_vars, all bound)"}
+
+
+def extract(ctx):
+    """Which Funsor classes introduce FRESH names (the names `do_fresh_subs` / SubstituteInterpretation hand to the class's
+    eager_subs): read off the source of every `__init__` under funsor/, cross-checked against the streams that cover them."""
+    import ast
+    from pathlib import Path
+    from ..common import REPO
+    found = {}
+    for path in sorted((Path(REPO) / "funsor").glob("*.py")):
+        try:
+            tree = ast.parse(path.read_text())
+        except SyntaxError:
+            continue
+        for node in ast.walk(tree):
+            if not isinstance(node, ast.ClassDef):
+                continue
+            for fn in node.body:
+                if isinstance(fn, ast.FunctionDef) and fn.name == "__init__":
+                    for st in ast.walk(fn):
+                        if isinstance(st, ast.Assign) and any(isinstance(t, ast.Name) and t.id == "fresh" for t in st.targets):
+                            v = st.value
+                            empty = isinstance(v, ast.Call) and getattr(v.func, "id", "") == "frozenset" and not v.args
+                            if not empty and node.name != "Funsor":
+                                found[node.name] = f"{path.name}:{st.lineno}"
+    ctx.extra["classes_with_fresh_names"] = {k: {"where": w, "covered_by": FRESH_COVERED.get(k, "NOT COVERED")} for k, w in sorted(found.items())}
+    unknown = sorted(k for k in found if k not in FRESH_COVERED)
+    if unknown:
+        ctx.extra["classes_with_fresh_names_uncovered"] = unknown
+
+
 def correspond(ctx):
     ctx.rule = RULE
+    if "classes_with_fresh_names" not in ctx.extra:
+        extract(ctx)
+    for k, v in ctx.extra.get("classes_with_fresh_names", {}).items():
+        ctx.count(f"fresh-class:{k}:{'covered' if v['covered_by'] != 'NOT COVERED' else 'UNCOVERED'}")
     run_rewritten(ctx)
     run_s3(ctx)
     run_s1(ctx)
